@@ -8,7 +8,8 @@ Statements are about `SleapVerif.Peaks.localPeaksRough` / `refineLocal` / `local
 `find_local_peaks_rough` / `find_local_peaks` (sleap_nn/inference/peak_finding.py), tied to the code
 by `harness/c06.py`.  They hold for every ordered field `R` (so for ℚ, on which the driver runs
 the same definitions, and for ℝ), every batch shape `S×C×h×w` (1×1 and 1×N maps included), every
-threshold `≥ -max_val` and every odd patch size `2r+1`.
+threshold `≥ -max_val` and every patch size `q ≥ 1`, odd (the crop reads cells) or even (the crop
+reads means of four cells).
 
 `big` is kornia's `max_val = 1e4`: the dilation pads the map with `-big` and adds `-big` to the
 centre.  `hthr : -big ≤ thr` is the one hypothesis the code's domain needs (for a threshold
@@ -71,10 +72,10 @@ theorem local_peaks_batch_independent (big thr : R) (b : Batch R) {s c : Nat} (h
       (localPeaksRough big thr (b.single s c)).map (fun p => { p with sample := s, channel := c }) :=
   localPeaksRough_filter big thr b hs hc
 
-/-- **Refinement keeps number, order, sample/channel indices and values.** -/
-theorem refine_preserves (r : Nat) (b : Batch R) (ps : List (Peak R)) :
-    (refineLocal r b ps).length = ps.length ∧
-    (refineLocal r b ps).map (fun q => (q.val, q.sample, q.channel)) =
+/-- **Refinement keeps number, order, sample/channel indices and values** (`q` = patch size). -/
+theorem refine_preserves (q : Nat) (b : Batch R) (ps : List (Peak R)) :
+    (refineLocal q b ps).length = ps.length ∧
+    (refineLocal q b ps).map (fun e => (e.val, e.sample, e.channel)) =
       ps.map (fun p => (p.val, p.sample, p.channel)) := by
   unfold refineLocal
   refine ⟨List.length_map _, ?_⟩
@@ -82,43 +83,51 @@ theorem refine_preserves (r : Nat) (b : Batch R) (ps : List (Peak R)) :
 
 /-- **The patch of a detected peak is read from its own map** `(sample, channel)` (the code indexes
 the `(S·C,1,h,w)` reshape with `sample*C + channel`), centred on its own cell. -/
-theorem refine_crop_index (big thr : R) (r : Nat) (b : Batch R) :
-    localPeaks big thr r b = (localPeaksRough big thr b).map fun p =>
-      ⟨refinePoint b.h b.w (b.v p.sample p.channel) r p.x p.y, p.val, p.sample, p.channel⟩ := by
+theorem refine_crop_index (big thr : R) (q : Nat) (b : Batch R) :
+    localPeaks big thr q b = (localPeaksRough big thr b).map fun p =>
+      ⟨refinePoint b.h b.w (b.v p.sample p.channel) q p.x p.y, p.val, p.sample, p.channel⟩ := by
   unfold localPeaks refineLocal
   refine List.map_congr_left fun p hp => ?_
   rw [mem_localPeaksRough] at hp
   rw [b.flat_index hp.2.2.2.1]
 
-/-- Full-strength statement (no sign hypothesis): **false** of the code, see
-`refine_unbounded_counterexample`. -/
+/-- Full-strength statement (no sign hypothesis), every patch size `q ≥ 1`, odd or even: **false**
+of the code, see `refine_unbounded_counterexample`. -/
 def RefineBounded (R : Type) [Field R] [LinearOrder R] [IsStrictOrderedRing R] : Prop :=
-  ∀ (h w : Nat) (img : Nat → Nat → R) (r x y : Nat) (px py : R), x < w → y < h →
-    refinePoint h w img r x y = some (px, py) → |px - x| ≤ r ∧ |py - y| ≤ r
+  ∀ (h w : Nat) (img : Nat → Nat → R) (q x y : Nat) (px py : R), 1 ≤ q → x < w → y < h →
+    refinePoint h w img q x y = some (px, py) → |px - x| ≤ ((q : R) - 1) / 2 ∧ |py - y| ≤ ((q : R) - 1) / 2
 
-/-- **Half-patch bound, partial**: when the patch around the cell has no negative entry and a
-positive sum, the refined point exists and lies within `r = (p-1)/2` of the cell in x and y
-(it is a convex combination of the patch grid). -/
-theorem refine_bounded_partial (h w : Nat) (img : Nat → Nat → R) (r x y : Nat)
-    (hnn : ∀ a b, a < 2*r+1 → b < 2*r+1 → 0 ≤ patch h w img r x y a b)
-    (hz : 0 < patchSum r (patch h w img r x y)) :
-    ∃ px py, refinePoint h w img r x y = some (px, py) ∧ |px - x| ≤ r ∧ |py - y| ≤ r :=
-  refinePoint_bounded h w img r x y hnn hz
+/-- **Half-patch bound, partial** — for **every** patch size `q ≥ 1`, odd (cells) or even (means of
+four cells): when the cropped patch has no negative entry and a positive sum, the refined point
+exists and lies within `(q-1)/2` of the cell in x and y (it is a convex combination of the
+sampling grid `k - (q-1)/2`). -/
+theorem refine_bounded_partial (h w : Nat) (img : Nat → Nat → R) (q x y : Nat) (hq : 1 ≤ q)
+    (hnn : ∀ a b, a < q → b < q → 0 ≤ patch h w img q x y a b)
+    (hz : 0 < patchSum q (patch h w img q x y)) :
+    ∃ px py, refinePoint h w img q x y = some (px, py) ∧
+      |px - x| ≤ ((q : R) - 1) / 2 ∧ |py - y| ≤ ((q : R) - 1) / 2 := by
+  rw [← halfSpan_eq hq]
+  exact refinePoint_bounded h w img q x y hnn hz
 
 /-- Corollary in terms of the map: non-negative map, positive value at the (in-bounds) cell. -/
-theorem refine_bounded_of_nonneg_map (h w : Nat) (img : Nat → Nat → R) (r x y : Nat)
+theorem refine_bounded_of_nonneg_map (h w : Nat) (img : Nat → Nat → R) (q x y : Nat) (hq : 1 ≤ q)
     (hx : x < w) (hy : y < h) (hnn : ∀ i j, 0 ≤ img i j) (hpos : 0 < img y x) :
-    ∃ px py, refinePoint h w img r x y = some (px, py) ∧ |px - x| ≤ r ∧ |py - y| ≤ r :=
-  refinePoint_bounded_of_nonneg_map h w img r x y hx hy hnn hpos
+    ∃ px py, refinePoint h w img q x y = some (px, py) ∧
+      |px - x| ≤ ((q : R) - 1) / 2 ∧ |py - y| ≤ ((q : R) - 1) / 2 := by
+  rw [← halfSpan_eq hq]
+  exact refinePoint_bounded_of_nonneg_map h w img q x y hq hx hy hnn hpos
 
-/-- hypotheses of `refine_bounded_partial` are satisfiable: a 3×3 map with a non-centred blob. -/
-example : refinePoint (R := Rat) 3 3 (fun i j => if i = 1 ∧ j = 1 then 1 else if i = 1 ∧ j = 2 then 1/2 else 0) 1 1 1
+/-- hypotheses of `refine_bounded_partial` are satisfiable: a 3×3 map with a non-centred blob, odd
+patch (3) and even patch (2: means of four cells, grid `±1/2`). -/
+example : refinePoint (R := Rat) 3 3 (fun i j => if i = 1 ∧ j = 1 then 1 else if i = 1 ∧ j = 2 then 1/2 else 0) 3 1 1
     = some (4/3, 1) := by decide +kernel
+example : refinePoint (R := Rat) 3 3 (fun i j => if i = 1 ∧ j = 1 then 1 else if i = 1 ∧ j = 2 then 1/2 else 0) 2 1 1
+    = some (11/10, 1) := by decide +kernel
 
 /-- the other way the hypotheses of `refine_bounded_partial` can fail (finding F-C06z): a 1×1 map
 holding 0 (a peak for a negative threshold) has an all-zero patch, the normaliser is 0 and the
 code produces NaN (`none` in the model). -/
-example : localPeaks (R := Rat) 10000 (-1/4) 1 ⟨1, 1, 1, 1, fun _ _ _ _ => 0⟩ = [⟨none, 0, 0, 0⟩] := by
+example : localPeaks (R := Rat) 10000 (-1/4) 3 ⟨1, 1, 1, 1, fun _ _ _ _ => 0⟩ = [⟨none, 0, 0, 0⟩] := by
   decide +kernel
 
 /-- The F-C06 witness map: 7×7, `1` at (x=3,y=3), `-9/10` at (x=2,y=3). -/
@@ -129,11 +138,11 @@ def witnessMap : Batch Rat :=
 threshold 0.2 and patch size 5 the detector reports the single peak (3,3) and refines it to
 x̂ = 12 — nine pixels away, outside the 7×7 map. -/
 theorem refine_unbounded_counterexample :
-    localPeaks (R := Rat) 10000 (1/5) 2 witnessMap = [⟨some (12, 3), 1, 0, 0⟩] ∧ ¬ RefineBounded Rat := by
-  have h1 : localPeaks (R := Rat) 10000 (1/5) 2 witnessMap = [⟨some (12, 3), 1, 0, 0⟩] := by decide +kernel
+    localPeaks (R := Rat) 10000 (1/5) 5 witnessMap = [⟨some (12, 3), 1, 0, 0⟩] ∧ ¬ RefineBounded Rat := by
+  have h1 : localPeaks (R := Rat) 10000 (1/5) 5 witnessMap = [⟨some (12, 3), 1, 0, 0⟩] := by decide +kernel
   refine ⟨h1, fun H => ?_⟩
-  have h2 : refinePoint (R := Rat) 7 7 (witnessMap.v 0 0) 2 3 3 = some (12, 3) := by decide +kernel
-  have := (H 7 7 (witnessMap.v 0 0) 2 3 3 12 3 (by omega) (by omega) h2).1
+  have h2 : refinePoint (R := Rat) 7 7 (witnessMap.v 0 0) 5 3 3 = some (12, 3) := by decide +kernel
+  have := (H 7 7 (witnessMap.v 0 0) 5 3 3 12 3 (by omega) (by omega) (by omega) h2).1
   norm_num at this
 
 end SleapVerif.C06
